@@ -306,6 +306,39 @@ def run(ctx):
             fb_ = prog.flat(b.defp)
             fills = [(blk, c, t) for (blk, c, t) in fb_.calls() if is_csprng_call(prog, c) and c.target.endswith("fill_bytes")]
             ctx.ob("N1", b.defp, "xchacha-nonce:from-csprng", loc(b.sp), len(fills) >= 1, "the datagram nonce prefix is filled from the CSPRNG" if fills else "the datagram nonce prefix is not filled from the CSPRNG")
+    # by role: every function that seals with a nonce it carries in its own output buffer (the nonce operand of the detached seal is a slice
+    # of the `&mut BytesMut` it writes the datagram into) must itself fill that buffer's nonce bytes from the CSPRNG — a sibling that only
+    # reserves the bytes (zeros, or whatever `advance_mut` exposes) seals every datagram under the same nonce
+    n_self = 0
+    for b in bodies:
+        if b.root != b.defp:
+            continue
+        bufs = {i for i in range(1, b.argc + 1) if "BytesMut" in b.local_ty(i) and b.local_ty(i).lstrip().startswith("&mut")}
+        if not bufs:
+            continue
+        for (blk, c, t) in b.calls():
+            if c.method not in ("encrypt_in_place_detached", "encrypt_in_place") or len(t["args"]) < 2:
+                continue
+            np_ = op_place(t["args"][1])
+            if np_ is None:
+                continue
+            nlocs, ncalls, _ = b.slice_back([np_[0]])
+            if not (nlocs & bufs) or any((cc.self_def or "") in _inc_or_cnt_gens(prog) for (_, cc, _) in ncalls):
+                continue
+            n_self += 1
+            filled = False
+            for (b2, c2, t2) in b.calls():
+                if not is_csprng_call(prog, c2) or not t2["args"]:
+                    continue
+                for a in t2["args"]:
+                    ap = op_place(a)
+                    if ap is not None and (b.slice_back([ap[0]])[0] & bufs) and b.local_ty(ap[0]).lstrip().startswith("&mut"):
+                        filled = True
+            ctx.ob("N1", b.defp, "self-carried-nonce:filled-from-csprng", loc(t["sp"]), filled,
+                   "the nonce bytes of the output buffer are filled by a CSPRNG call in this function" if filled else
+                   "the nonce handed to the AEAD seal is a slice of this function's own output buffer, and no CSPRNG call in this function writes into that buffer: "
+                   "the bytes are whatever was reserved there (zeros), so every datagram this side sends is sealed under the same (key, nonce)")
+    ctx.floor("N1", "encoders that seal under a nonce carried in their own output", 2, n_self)
 
     # ---------------- N2 one generator step per AEAD call ----------------------------------------
     PRIMS = ("encrypt_in_place", "decrypt_in_place", "encrypt_in_place_detached", "decrypt_in_place_detached", "encrypt", "decrypt")
@@ -467,3 +500,8 @@ def run(ctx):
                             srcs.append(sorted(l for l in locs if 1 <= l <= b.argc))
                         ok = len(srcs) == 3 and all(len(x) >= 1 for x in srcs) and len({tuple(x) for x in srcs}) == 3
                         ctx.ob("N4", b.defp, "cache-key-components", loc(s["sp"]), ok, f"cache key fields derive from parameters {srcs} (kind, key identity, session id)")
+
+
+def _inc_or_cnt_gens(prog):
+    from .common import aead_roles
+    return aead_roles(prog)[1]
